@@ -26,7 +26,7 @@ EXTENDS TwigValues
 \* ---------------------------------------------------------------------------
 \* identifier spelling table (TLC strings are atomic)
 \* ---------------------------------------------------------------------------
-NT == [ a |-> <<97>>, b |-> <<98>>, c |-> <<99>>, d |-> <<100>>, e |-> <<101>>,
+NTBase == [ a |-> <<97>>, b |-> <<98>>, c |-> <<99>>, d |-> <<100>>, e |-> <<101>>,
         f |-> <<102>>, g |-> <<103>>, h |-> <<104>>, i |-> <<105>>, j |-> <<106>>,
         k |-> <<107>>, m |-> <<109>>, n |-> <<110>>, o |-> <<111>>, p |-> <<112>>,
         q |-> <<113>>, r |-> <<114>>, s |-> <<115>>, t |-> <<116>>, u |-> <<117>>,
@@ -37,7 +37,11 @@ NT == [ a |-> <<97>>, b |-> <<98>>, c |-> <<99>>, d |-> <<100>>, e |-> <<101>>,
         m1 |-> <<109,49>>, m2 |-> <<109,50>>, b1 |-> <<98,49>>, b2 |-> <<98,50>>,
         X |-> <<88>>, Y |-> <<89>>, Z |-> <<90>>, N |-> <<78>>,
         \* path-like template names (two directories p/ and s/) for relative includes
+        pqx |-> <<112,47,113,47,120>>, pn1 |-> <<112,47,110,49>>,
         pm |-> <<112,47,109>>, pb |-> <<112,47,98>>, ph |-> <<112,47,104>>, sh |-> <<115,47,104>>, sb |-> <<115,47,98>>, sm |-> <<115,47,109>> ]
+\* 67 more variable names w10 .. w76 (wide contexts)
+NT == NTBase @@ [n \in {"w" \o ToString(i) : i \in 10..76} |->
+                    LET i == CHOOSE k \in 10..76 : n = "w" \o ToString(k) IN <<119, 48 + (i \div 10), 48 + (i % 10)>>]
 NameText(n) == NT[n]
 TextIsName(s) == \E n \in DOMAIN NT : NT[n] = s
 NameOfText(s) == CHOOSE n \in DOMAIN NT : NT[n] = s
@@ -80,6 +84,7 @@ Include(e, with, hasWith, only, ign, sbx) ==
 Inc(e)            == Include(e, Lit(Null), FALSE, FALSE, FALSE, FALSE)
 Block(n, body)    == [k |-> "block", n |-> n, body |-> body]
 Extends(e)        == [k |-> "extends", e |-> e]
+RawStmt(ps)       == [k |-> "raw", ps |-> ps]          \* source pieces as they are (outside the reference semantics: "frag")
 Macro(n, ps, body) == [k |-> "macro", n |-> n, ps |-> ps, body |-> body]
 Param(n)          == [n |-> n, hasD |-> FALSE, d |-> Lit(Null)]
 ParamD(n, d)      == [n |-> n, hasD |-> TRUE, d |-> d]
@@ -406,6 +411,7 @@ BlocksIn(body) ==
              inner == CASE s.k = "block" -> {s} \cup BlocksIn(s.body)
                         [] s.k = "if" -> UNION {BlocksIn(s.bs[i]) : i \in 1..Len(s.bs)} \cup BlocksIn(s.el)
                         [] s.k = "for" -> BlocksIn(s.body) \cup BlocksIn(s.el)
+                        [] s.k \in {"apply", "spaceless"} -> BlocksIn(s.body)
                         [] OTHER -> {}
          IN inner \cup BlocksIn(Tail(body))
 DefinesBlock(W, t, n) == \E b \in BlocksIn(W.tp[t]) : b.n = n
